@@ -872,6 +872,41 @@ def run_nested_mixtures(ctx):
                           found_input=True, unit=u.name, expected=float(ref[j]), observed=float(lp[j]), broken="mixture law (nested)")
 
 
+def run_sample_shapes(ctx):
+    """sample / sample_and_log_prob with sample_shapes of rank 2 and 3: the right shape and, the laws being continuous, pairwise distinct
+    draws (independent randomness in every element), and the flattened draws still follow the law (KS).  (Seeded change C05h split the keys
+    one axis at a time and repeated one row of draws along the leading axis.)"""
+    s = _setup()
+    jnp, jr, D = s["jnp"], s["jr"], s["fd"]
+    from scipy import stats as st
+
+    u = ctx.unit("O4-sample-shapes", "sample / sample_and_log_prob with sample_shape (50, 40), (7, 6, 5), (1, 300): shape, all draws distinct, KS of the flattened draws (threshold for N = 2000: 0.075)")
+    r = ctx.rng
+    for name, d, cdf in (("Normal(0.5, 2)", D.Normal(0.5, 2.0), lambda x: st.norm.cdf(x, 0.5, 2.0)), ("Gumbel(-1, 0.7)", D.Gumbel(-1.0, 0.7), lambda x: st.gumbel_r.cdf(x, -1.0, 0.7)),
+                         ("StudentT(4, 0, 1.5)", D.StudentT(4.0, 0.0, 1.5), lambda x: st.t.cdf(x, 4.0, 0.0, 1.5))):
+        for ss in ((50, 40), (7, 6, 5), (1, 300)):
+            key = jr.PRNGKey(int(r.integers(0, 2**31 - 1)))
+            for meth in ("sample", "sample_and_log_prob"):
+                out = d.sample(key, ss) if meth == "sample" else d.sample_and_log_prob(key, ss)[0]
+                out = np.asarray(out, dtype=float)
+                u.count((name, ss, meth), nontrivial=True, tag=f"rank{len(ss)}")
+                errs = []
+                if out.shape != ss:
+                    errs.append(f"shape {out.shape} instead of {ss}")
+                else:
+                    nd = len(np.unique(out))
+                    if nd != out.size:
+                        errs.append(f"only {nd} distinct values among {out.size} draws (a continuous law: elements share randomness)")
+                    dks = ks_stat(out.ravel(), cdf)
+                    thr = 0.075 if out.size >= 2000 else 0.2
+                    if dks > thr:
+                        errs.append(f"KS statistic {dks:.4f} > {thr} against the law's CDF")
+                if errs:
+                    ctx.violation(sig=f"sample-shape:{meth}:{'distinct' if 'distinct' in errs[0] else 'ks-or-shape'}", what=f"{name}.{meth}(key, {ss}): " + "; ".join(errs),
+                                  case={"kind": "sample-shape", "dist": name, "sample_shape": list(ss), "key": np.asarray(key).tolist(), "method": meth}, found_input=True, unit=u.name,
+                                  expected=f"{int(np.prod(ss))} independent draws", observed="; ".join(errs)[:200], broken="samples follow the density / independent randomness per element")
+
+
 # ---------- U5 MultivariateNormal ----------
 def run_mvn(ctx):
     s = _setup()
@@ -1006,7 +1041,7 @@ def run_large_events(ctx):
 def run(ctx):
     import time
     _setup()
-    for name, fn in (("families", run_families), ("ks", run_ks), ("mixtures", run_mixtures), ("nested-mixtures", run_nested_mixtures), ("mvn", run_mvn), ("large-events", run_large_events)):
+    for name, fn in (("families", run_families), ("ks", run_ks), ("mixtures", run_mixtures), ("nested-mixtures", run_nested_mixtures), ("sample-shapes", run_sample_shapes), ("mvn", run_mvn), ("large-events", run_large_events)):
         t0 = time.time()
         fn(ctx)
         ctx.notes.append(f"phase {name}: {time.time() - t0:.1f}s")
